@@ -4,7 +4,7 @@
    Model/EchoWriter.v (LuaEchoWriter).  Reference decoder: Spec/LuaLex.v.  holds_C06: Instances/HoldsC06.v,
    the very predicate the extracted monitor evaluates on (source, text written by the implementation). *)
 From PV Require Import Base.Prelude Generated.T_lexer Model.Lexer Model.EchoWriter Spec.LuaLex
-  Instances.HoldsC06 Proofs.LexerProofs Proofs.LexerInv Proofs.LexerStr Proofs.LexerEnc Proofs.LexerChunk Proofs.EchoProofs.
+  Instances.HoldsC06 Proofs.LexerProofs Proofs.LexerInv Proofs.LexerStr Proofs.LexerEnc Proofs.LexerChunk Proofs.EchoProofs Proofs.LexerRelex Proofs.LexerAppendLf Proofs.EchoStable.
 
 (* THE property for every byte string given as one chunk: if the source is in the dialect it is lexed, and the
    echoed text, walked along the reference tokens of the source, repeats the source byte for byte outside
@@ -67,6 +67,38 @@ Theorem C06_string_decode_agrees : forall q s v raw rest,
   scan_string fuel q s acc pc = Ok (SClosed (rev v ++ acc) (rev raw ++ pc) rest).
 Proof. exact string_scan_agrees. Qed.
 Print Assumptions C06_string_decode_agrees.
+
+(* the written text is a fixed point: lexing it again - EVERY input, also text that is not valid Lua, any
+   splitting after line feeds on both sides - succeeds and writes the very same text (strings are already in
+   TokString.code spelling; no Normal-state decision looks past the opening quote of the next string) *)
+Theorem C06_relex_stable : forall s ts, model_lex [s] = Ok ts ->
+  exists ts', model_lex [concat (map tok_code ts)] = Ok ts' /\ map tok_code ts' = map tok_code ts.
+Proof. exact relex_stable. Qed.
+Print Assumptions C06_relex_stable.
+
+Theorem C06_echo_idempotent : forall ls lines, Forall ends_lf (removelast ls) -> echo_source ls = Ok lines ->
+  forall ls', concat ls' = concat lines -> Forall ends_lf (removelast ls') ->
+  exists lines', echo_source ls' = Ok lines' /\ concat lines' = concat lines.
+Proof. exact echo_idempotent. Qed.
+Print Assumptions C06_echo_idempotent.
+
+(* ... and stays one when a final line feed is supplied (the .p8 writer does that) *)
+Theorem C06_echo_idempotent_lf : forall ls lines, Forall ends_lf (removelast ls) -> echo_source ls = Ok lines ->
+  forall ls', concat ls' = concat lines ++ [10] -> Forall ends_lf (removelast ls') ->
+  exists lines', echo_source ls' = Ok lines' /\ concat lines' = concat lines ++ [10].
+Proof. exact echo_idempotent_lf. Qed.
+Print Assumptions C06_echo_idempotent_lf.
+
+(* no chunk yielded by the writer is empty (no token has an empty code) *)
+Theorem C06_echo_chunks_nonempty : forall ls lines, echo_source ls = Ok lines -> Forall (fun c => c <> []) lines.
+Proof. exact echo_chunks_nonempty. Qed.
+Print Assumptions C06_echo_chunks_nonempty.
+
+(* the written text of a source of the dialect has no carriage return outside CR LF *)
+Theorem C06_echo_crlf_only : forall src ss, Forall byte src -> spec_lex src = Some ss ->
+  exists lines, echo_source [src] = Ok lines /\ crlf_only (concat lines) = true.
+Proof. exact echo_crlf_only. Qed.
+Print Assumptions C06_echo_crlf_only.
 
 (* non-vacuity / the former defects, on the model of the fixed code *)
 Example C06_examples :
